@@ -65,8 +65,10 @@ fn strategy(tier: Tier) -> BoxedStrategy<Case> {
                 if lossy { prop::collection::vec(prop_oneof![3 => Just(Fate::Deliver), 2 => Just(Fate::Drop), 1 => (1u16..300).prop_map(Fate::Delay), 1 => (0u16..200).prop_map(Fate::Dup)], 0..400).boxed() } else { Just(vec![]).boxed() },
                 prop::collection::vec(any::<u16>(), 0..6),
                 (0u8..2, 0u32..100_000),
+                // chatter: old datagrams keep arriving at short intervals while the connections are closing
+                prop::option::weighted(0.35, (0u32..3000, prop_oneof![1 => 10usize..80, 1 => 80usize..250], 100u32..950, any::<u16>())),
             )
-                .prop_map(move |(rnd0, rnd1, wl0, wl1, conns, lat, fates, replays, (csock, cat))| {
+                .prop_map(move |(rnd0, rnd1, wl0, wl1, conns, lat, fates, replays, (csock, cat), chatter)| {
                     let mk = |rnd: Vec<u16>, wl: bool| SockCfg { v6, rnd, max_live: limit as u16, wait_lastack: wl, inactivity_ms: 10_000, max_retx: 5, ..SockCfg::default() };
                     let socks = vec![mk(rnd0, wl0), mk(rnd1, wl1)];
                     let cycle_ms = APP_PATIENCE_MS + T_END_MS + 20_000;
@@ -83,6 +85,14 @@ fn strategy(tier: Tier) -> BoxedStrategy<Case> {
                     for (j, f) in replays.iter().enumerate() {
                         let cyc = (j as u32 % cycles as u32) + 1;
                         events.push((cyc * cycle_ms - 10_000 + j as u32 * 7, Event::ReplayOld(*f)));
+                    }
+                    if let Some((start, n, every, f0)) = chatter {
+                        for cyc in 0..cycles as u32 {
+                            for j in 0..n as u32 {
+                                let f = f0.wrapping_mul(j as u16 + 1).wrapping_add((j as u16).wrapping_mul(7919));
+                                events.push((cyc * cycle_ms + start + j * every, match f0 % 4 { 0 => Event::ReplayOld(f), 1 => Event::ReplayRecent(f), k => Event::ReplayTo { sock: (k - 2) as usize, f } }));
+                            }
+                        }
                     }
                     let cancel = if with_cancel { Some((csock, cat % total_ms)) } else { None };
                     if let Some((s, t)) = cancel { events.push((t, Event::CancelSocket(s as usize))); }
@@ -202,7 +212,8 @@ pub fn oracle(case: &Case, res: &RunResult) -> Outcome {
     }
     let lost_closing = res.log.iter().any(|r| matches!(r.disp, crate::sim::Disposition::Dropped("plan")) && r.pkt.as_ref().is_some_and(|p| p.ptype == refparse::ST_FIN || p.ptype == refparse::ST_STATE));
     if lost_closing { labels.insert("closing_datagram_lost"); }
-    if sc.events.iter().any(|e| matches!(e.1, Event::ReplayOld(_))) { labels.insert("stale_replayed"); }
+    if sc.events.iter().any(|e| matches!(e.1, Event::ReplayOld(_) | Event::ReplayRecent(_) | Event::ReplayTo { .. })) { labels.insert("stale_replayed"); }
+    if sc.events.iter().filter(|e| matches!(e.1, Event::ReplayOld(_) | Event::ReplayRecent(_) | Event::ReplayTo { .. })).count() >= 10 { labels.insert("chatter_while_closing"); }
     if sc.socks.iter().any(|s| !s.wait_lastack) { labels.insert("dont_wait_for_lastack"); }
     out.labels = labels.iter().copied().collect();
     out.nontrivial = lost_closing || case.cancel.is_some();
